@@ -39,6 +39,9 @@ struct P {
     link: LinkCfg,
     /// the peer drains slowly (only matters with a bounded send buffer)
     drain_every_ns: u64,
+    /// per sender: cancel the task at its n-th await point that returns Pending (fault kind `cancel_task`)
+    #[serde(default)]
+    cancel: Vec<Option<u32>>,
 }
 
 fn payload(sender: usize, idx: usize, len: u16) -> Vec<u8> {
@@ -54,7 +57,7 @@ impl Scenario for C18Scn {
         "C18"
     }
     fn rule(&self) -> &'static str {
-        "plan = 2..6 sender tasks x 1..5 messages each (send / emit_signal / call_noreply / reply / reply_error, bodies 0..4 KiB tagged (sender, index), 0..3 fds) over a transport with seeded partial writes, write stalls (Pending between the pieces of one message), bounded send buffer with a slow reader, task stalls, lock-fairness latency; separate configuration: an injected write error; oracle = the captured byte stream parses with an independent framer into whole messages, each equal to one sent message, fds attached at frame starts only, per-sender order kept; non-trivial = at least one message was written in more than one piece (partial write, stall or back-pressure in the middle of it) while more than one sender existed"
+        "plan = 2..6 sender tasks x 1..5 messages each (send / emit_signal / call_noreply / reply / reply_error, bodies 0..4 KiB tagged (sender, index), 0..3 fds) over a transport with seeded partial writes, write stalls (Pending between the pieces of one message), bounded send buffer with a slow reader, task stalls, lock-fairness latency; separate configurations: an injected write error; one or two sender tasks cancelled at a seeded await point (their in-flight message may be absent or whole, never partial; everything else as without the fault); oracle = the captured byte stream parses with an independent framer into whole messages, each equal to one sent message, fds attached at frame starts only, per-sender order kept; non-trivial = at least one message was written in more than one piece (partial write, stall or back-pressure in the middle of it) while more than one sender existed"
     }
     fn runs(&self, tier: Tier) -> u64 {
         match tier {
@@ -100,16 +103,25 @@ impl Scenario for C18Scn {
         }
         let drain_every_ns = *rng.pick(&[0u64, 1_000, 700_000]);
         let sched = SchedCfg::generate(rng, &["sender-0", "sender-1", "sender"]);
-        (sched, j(&P { senders, link, drain_every_ns }))
+        // separate configuration: one or two senders are cancelled at a seeded await point
+        let mut cancel = vec![None; ns];
+        if link.fail_write_call.is_none() && rng.chance(1, 4) {
+            for _ in 0..rng.range(1, 2) {
+                cancel[rng.usize(ns)] = Some(rng.below(12) as u32);
+            }
+        }
+        (sched, j(&P { senders, link, drain_every_ns, cancel }))
     }
 
     fn shrink(&self, body: &Value) -> Vec<Value> {
         let p: P = unj(body);
         let mut out = vec![];
-        for s in drop_candidates(&p.senders) {
+        let zipped: Vec<(Vec<M>, Option<u32>)> = p.senders.iter().cloned().enumerate().map(|(i, s)| (s, p.cancel.get(i).copied().flatten())).collect();
+        for s in drop_candidates(&zipped) {
             if s.len() >= 1 {
                 let mut q = p.clone();
-                q.senders = s;
+                q.senders = s.iter().map(|x| x.0.clone()).collect();
+                q.cancel = s.iter().map(|x| x.1).collect();
                 out.push(j(&q));
             }
         }
@@ -127,6 +139,13 @@ impl Scenario for C18Scn {
                     q.senders[i][k] = M { api: Api::Send, len: m.len / 2, nfds: m.nfds.saturating_sub(1), pause: false };
                     out.push(j(&q));
                 }
+            }
+        }
+        for (i, c) in p.cancel.iter().enumerate() {
+            if c.is_some() {
+                let mut q = p.clone();
+                q.cancel[i] = None;
+                out.push(j(&q));
             }
         }
         for f in [
@@ -174,7 +193,8 @@ impl Scenario for C18Scn {
                 let res = res2.clone();
                 let call = call.clone();
                 let w3 = ww.clone();
-                tasks.push(ww.spawn(&format!("sender-{si}"), async move {
+                let cancel_at = p2.cancel.get(si).copied().flatten();
+                tasks.push(ww.spawn(&format!("sender-{si}"), cancel_after(&ww, cancel_at, async move {
                     for (mi, m) in msgs.iter().enumerate() {
                         if m.pause {
                             w3.yield_now().await;
@@ -208,7 +228,7 @@ impl Scenario for C18Scn {
                         };
                         res.lock().unwrap()[si][mi] = Some(r.is_ok());
                     }
-                }));
+                })));
             }
             tasks
         });
@@ -249,14 +269,18 @@ impl Scenario for C18Scn {
             None => return Verdict::harness("app did not start"),
         }
         let write_fault = p.link.fail_write_call.is_some();
+        let cancelled = |si: usize| p.cancel.get(si).copied().flatten().is_some();
+        let any_cancel = (0..p.senders.len()).any(cancelled);
+        // with a cancelled sender the framing rules carry their own fingerprints
+        let fr = |d: &str| if any_cancel { format!("after-cancelled-send-{d}") } else { d.to_string() };
 
         // ---- oracle ----
         let (frames, rest) = match split_frames(&captured) {
             Ok(x) => x,
-            Err(e) => return Verdict::fail("frame", "unparseable-stream", format!("captured stream does not frame: {e}")),
+            Err(e) => return Verdict::fail("frame", fr("unparseable-stream"), format!("captured stream does not frame: {e}")),
         };
         if !rest.is_empty() && !write_fault {
-            return Verdict::fail("frame", "trailing-partial-frame", format!("{} bytes of an incomplete frame at the end of the stream", rest.len()));
+            return Verdict::fail("frame", fr("trailing-partial-frame"), format!("{} bytes of an incomplete frame at the end of the stream", rest.len()));
         }
         let mut last_idx: Vec<i64> = vec![-1; p.senders.len()];
         let mut seen = vec![vec![false; 8]; p.senders.len()];
@@ -266,18 +290,18 @@ impl Scenario for C18Scn {
             starts.push(off);
             let m = match RawMsg::decode(f) {
                 Ok(m) => m,
-                Err(e) => return Verdict::fail("frame", "undecodable-frame", format!("frame at {off}: {e}")),
+                Err(e) => return Verdict::fail("frame", fr("undecodable-frame"), format!("frame at {off}: {e}")),
             };
             let vals = match m.body_vals() {
                 Ok(v) => v,
-                Err(e) => return Verdict::fail("frame", "undecodable-body", format!("frame at {off} (sig {}): {e}", m.signature())),
+                Err(e) => return Verdict::fail("frame", fr("undecodable-body"), format!("frame at {off} (sig {}): {e}", m.signature())),
             };
             let (si, mi) = match (vals.first(), vals.get(1)) {
                 (Some(Val::U32(a)), Some(Val::U32(b))) => (*a as usize, *b as usize),
-                _ => return Verdict::fail("frame", "foreign-message", format!("frame at {off} is not one of the sent messages: {m:?}")),
+                _ => return Verdict::fail("frame", fr("foreign-message"), format!("frame at {off} is not one of the sent messages: {m:?}")),
             };
             if si >= p.senders.len() || mi >= p.senders[si].len() {
-                return Verdict::fail("frame", "foreign-message", format!("frame at {off} has tag ({si},{mi})"));
+                return Verdict::fail("frame", fr("foreign-message"), format!("frame at {off} has tag ({si},{mi})"));
             }
             let spec = &p.senders[si][mi];
             let want_payload: Vec<Val> = payload(si, mi, spec.len).into_iter().map(Val::Byte).collect();
@@ -321,7 +345,7 @@ impl Scenario for C18Scn {
                     Some(false) if !write_fault => {
                         return Verdict::fail("error", "send-failed-without-fault", format!("send of ({si},{mi}) failed although no fault was injected"));
                     }
-                    None if !write_fault => {
+                    None if !write_fault && !cancelled(si) => {
                         return Verdict::fail("hang", "send-never-finished", format!("send of ({si},{mi}) never completed"));
                     }
                     _ => {}
